@@ -52,6 +52,13 @@ impl CurrencyAmount {
             return Ok(self.amount);
         }
 
+        // Nothing to convert: a zero amount is zero pounds at any rate, so it needs no rate
+        // (the DSL writer drops a zero fee or tax together with its currency label, and the
+        // ledger must give the same report before and after that round trip).
+        if self.amount.is_zero() {
+            return Ok(Decimal::ZERO);
+        }
+
         let rate_entry = fx_cache
             .get(self.currency, date.year(), date.month())
             .ok_or(FxConversionError::MissingRate {
